@@ -617,11 +617,18 @@ def parse_tree_to_objgraph(
                                 n
                                 for n in node
                                 if type(n) is not Terminal
-                                and n.rule._tx_class is not RULE_MATCH
+                                and n.rule._tx_class._tx_type is not RULE_MATCH
                             )
                         )  # noqa
                     except StopIteration:
-                        # All nodes are match rules, do concatenation
+                        pass
+                    try:
+                        # All nodes are match rules.
+                        return process_node(
+                            next(n for n in node if type(n) is not Terminal)
+                        )
+                    except StopIteration:
+                        # All nodes are terminals, do concatenation
                         return "".join(str(n) for n in node)
                 else:
                     return process_node(node[0])
